@@ -1,7 +1,10 @@
 """C05 — quiescent convergence: fault-free rounds reach a fixed point at which the remaining work is blocked for a documented reason."""
+import ast
 import pathlib
 
 from vf import core
+from vf.core import cbool, clist, cn, copt, cz, ctup
+from vf.translate import core as T
 from vf.harness import histories, itemrun as ir, itemworld as iw
 from vf.harness import world as w
 
@@ -21,8 +24,99 @@ RULE = ("single-item worlds from arbitrary start states x all environments: five
 ROUND_LIMIT = 14
 
 
+def gen(ctx):
+    tr = T.parse(core.REPO / "alpenhorn/io/transport.py")
+    q = "TransportGroupIO.pull_force"
+    tests = [ast.unparse(x.test) for x in T.if_tests(T.find_func(tr, q))]
+    if tests != ["not req.node_from.local", "n is not None", "node.db.under_min", "node.db.check_over_max()", "not node.io.fits(req.file.size_b)"]:
+        raise T.Untranslatable(f"UNTRANSLATABLE: the tests of pull_force changed: {tests}")
+    atoms = {"node.db.under_min": ("um", "bool"), "node.db.check_over_max()": ("om", "bool"), "node.io.fits(req.file.size_b)": ("fits", "bool"), "req.node_from.local": ("local_", "bool")}
+    d = [T.nth_test(tr, q, 0, {}, "g_not_local", atoms=atoms), T.nth_test(tr, q, 2, {}, "g_skip_under_min", atoms=atoms),
+         T.nth_test(tr, q, 3, {}, "g_skip_over_max", atoms=atoms), T.nth_test(tr, q, 4, {}, "g_skip_no_room", atoms=atoms)]
+    src = ast.unparse(T.find_func(tr, q))
+    for frag in ("for node in sorted(self._nodes, key=_node_key):", "return node.db.id * 1000000000.0", "n = node.db.avail_gb"):
+        if frag not in src:
+            raise T.Untranslatable(f"UNTRANSLATABLE: pull_force no longer contains `{frag}`")
+    loop = [n for n in ast.walk(T.find_func(tr, q)) if isinstance(n, ast.For)]
+    kinds = [type(x).__name__ for x in loop[0].body]
+    if len(loop) != 1 or kinds != ["If", "If", "If", "Expr", "Return"] or ast.unparse(loop[0].body[3]) != "node.io.pull(req)" or any(not (len(x.body) == 2 and isinstance(x.body[1], ast.Continue)) for x in loop[0].body[:3]):
+        raise T.Untranslatable(f"UNTRANSLATABLE: the node loop of pull_force is no longer three skip tests followed by the hand-off: {kinds}")
+    return {"Gen_transport": T.HEADER + "\n".join(d) + "\n"}
+
+
 def proofs(ctx):
+    try:
+        files = gen(ctx)
+    except T.Untranslatable as e:
+        ctx.broke("translator", "TransportGroupIO.pull_force", str(e))
+        files = None
+    if files:
+        core.check_tie(ctx, files, ["Tie_C05"])
     core.check_property_file(ctx, "C05.v")
+
+
+# ---- transport groups: which node gets the pull --------------------------------------------------------------------------
+def explore_transport(ctx, base, n):
+    from alpenhorn.daemon import update as U
+    from alpenhorn.io import transport as TR
+
+    terms, keep = [], []
+    for k in range(n):
+        rng = ctx.rng
+        w.fresh_db(host="h1")
+        gt, gs = w.mkgroup("gt", io_class="Transport"), w.mkgroup("gs")
+        local = rng.random() < 0.85
+        src = w.mknode(None, "src", gs, stype="F", host="h1" if local else "h9", root="/nonexistent/src")
+        acq = w.mkacq("acq")
+        f = w.mkfile(acq, "f", b"0123456789")
+        w.mkcopy(src, f, "Y", "Y", size_b=10)
+        big = w.mkfile(acq, "big", None, size_b=3 * 2 ** 30, md5sum="0" * 32)
+        rows = []
+        avails = rng.sample([None, None, 1, 2, 3, 5, 8, 13, 21], rng.randint(1, 4))
+        for j, a in enumerate(avails):
+            um = rng.random() < 0.3
+            om = rng.random() < 0.25
+            row = w.mknode(None, f"t{j}", gt, stype=rng.choice("TTTTA"), host="h1", root=f"/nonexistent/t{j}", avail_gb=a,
+                           min_avail_gb=(a + 1 if (um and a is not None) else 0), max_total_gb=(1 if om else None))
+            if om:
+                w.mkcopy(row, big, "Y", "Y", size_b=3 * 2 ** 30)
+            rows.append(row)
+        queue = w.StepQueue.make()
+        unodes = [U.UpdateableNode(queue, w.StorageNode.get(id=r.id)) for r in rows]
+        gio = TR.TransportGroupIO(w.StorageGroup.get(id=gt.id), {}, queue)
+        try:
+            used = gio.set_nodes(unodes)
+        except ValueError:
+            continue
+        got = []
+        facts = []
+        for un in used:
+            fits = rng.random() < 0.8
+            un.io.fits = lambda size, _f=fits: _f
+            un.io.pull = lambda req, _i=un.db.id: got.append(_i)
+            facts.append((un.db.id, un.db.avail_gb, bool(un.db.under_min), bool(un.db.check_over_max()), fits))
+        req = w.mkreq(f, src, gt)
+        gio.pull_force(w.ArchiveFileCopyRequest.get(id=req.id))
+        ctx.count("transport-choice")
+        if len(used) > 1:
+            ctx.distinct_add(("transport", local, repr(facts)))
+        rp = {"family": "transport", "local": local, "nodes": facts, "handed_to": got}
+        # the statement: handed to the fullest eligible node, exactly once; to nobody iff none is eligible or the source is remote
+        elig = [x for x in facts if not x[2] and not x[3] and x[4]]
+        if len(got) > 1 or (got and (not local or got[0] not in [x[0] for x in elig])) or (local and elig and not got):
+            ctx.fail("C05:transport-node-choice", f"pull_force handed the request to {got}; eligible nodes {[x[0] for x in elig]}, source local={local}", rp)
+        elif got and elig:
+            keyf = lambda x: x[1] if x[1] is not None else x[0] * 1e9
+            if keyf([x for x in elig if x[0] == got[0]][0]) > min(keyf(x) for x in elig):
+                ctx.fail("C05:transport-node-choice", f"pull_force chose node {got[0]} although an eligible node with less free space exists ({elig})", rp)
+        terms.append(ctup(cbool(local), clist([f"(TN {cn(i)} {copt(None if a is None else cz(int(a)), ty='Z')} {cbool(um)} {cbool(om)} {cbool(ft)})" for (i, a, um, om, ft) in facts], "tnode"),
+                          copt(cn(got[0]) if got else None, ty="N")))
+        keep.append(rp)
+        if k == 0:
+            ctx.sample(rp)
+    bad = core.run_cases(ctx, "transport", "Corr.C05", "case", "check", terms, shard=400, extra_imports=("Model.Transport",))
+    for b in bad[:3]:
+        ctx.broke("correspondence", f"transport node choice: model and implementation differ on {keep[b]}")
 
 
 # ---- single items ----------------------------------------------------------------------------------------------------------
@@ -218,6 +312,7 @@ def explore_histories(ctx, base, n):
 def explore(ctx):
     base = ctx.tmp()
     q = ctx.quick()
+    explore_transport(ctx, base, 150 if q else 4000)
     explore_items(ctx, base, 60 if q else 2500)
     explore_histories(ctx, base, 40 if q else 1500)
 
